@@ -11,8 +11,8 @@ pub fn prop() -> HistProp {
         focus: &["C07"],
         opts: HistOpts { mechs: vec![1], max_ops: 30, deliver_weight: 10, timer_weight: 4, hostile: 1, ..HistOpts::default() },
         drain: true,
-        quick: 20_000,
-        thorough: 400_000,
+        quick: 150_000,
+        thorough: 2_000_000,
         rule: "operation histories generated as one value (sends with application attributes, indications, clock advances, timer calls exact/early/late, replies to outstanding/finished/unknown ids with every authentication and fingerprint variant, 401/438 challenges, garbage and mutated buffers) run against a real client and the reference tracker in lock-step under a virtual clock; short-term clients only (algorithm preconfigured MI / SHA256 or learned), both transports; every delivered response/indication must carry integrity that verifies under the password with the reference HMAC and uses the agreed algorithm, both-attribute responses are never delivered, single valid replies are delivered, failing replies end the transaction (reliable) or are ignored and turn the final time-out into protection-violated (unreliable), every emitted packet carries USERNAME plus verifying integrity; non-trivial = a transaction that saw a rejected reply and later an accepted or another rejected one, a both-attribute reply, or a reply in the non-agreed algorithm; distinct = hash of the history",
         assumptions: &["the violated marker after a both-attribute response is left unconstrained (the property is silent)"],
         nontrivial: |h, s| s.rejected_while_outstanding > 0 && (s.finals_seen > 0 || h.ops.len() > 6),
